@@ -85,6 +85,10 @@ for nm, o in _bin:
     E('%s(2.5,U[3])' % nm, (lambda x, o=o: o(2.5, x)), (lambda x, o=o: o(2.5, x)), [u((3,), 'any')], tags=('binary',), atol=_at)
     E('%s(U[2,3],arr[3])' % nm, (lambda x, o=o: o(x, np.array([1.5, -2.0, 0.5]))), (lambda x, o=o: o(x, np.array([1.5, -2.0, 0.5]))), [u((2, 3), 'any')], tags=('binary',), atol=_at)
     E('%s(arr[2,1],U[3])' % nm, (lambda x, o=o: o(np.array([[1.5], [-2.0]]), x)), (lambda x, o=o: o(np.array([[1.5], [-2.0]]), x)), [u((3,), 'any')], tags=('binary',), atol=_at)
+_iops = [('iadd', operator.iadd), ('isub', operator.isub), ('imul', operator.imul), ('idiv', operator.itruediv)]
+for nm, o in _iops:
+    for sa, sb in [((3,), ()), ((2, 3), (3,)), ((2, 3), ()), ((2, 2), (2, 2)), ((3, 2), (2,))]:
+        E('%s(U%s,U%s)' % (nm, list(sa), list(sb)), (lambda x, y, o=o: o(UTPM(x.data.copy()), y)), None, [u(sa, 'any'), u(sb, 'any')], tags=('binary', 'inplace'))
 for k in [0, 1, 2, 3, -1, -2, 0.5, 2.5]:
     E('pow(U[3],%s)' % k, (lambda x, k=k: x ** k), (lambda x, k=k: x ** k), [u((3,), 'pos')], tags=('binary',), atol=4)
 E('pow(U[3],U[3])', operator.pow, operator.pow, [u((3,), 'pos'), u((3,), 'any')], tags=('binary',), atol=16)
@@ -126,7 +130,7 @@ E('fft[2,3] axis=0', lambda x: algopy.fft.fft(x, axis=0), lambda x: np.fft.fft(x
 E('ifft[2,3]', algopy.fft.ifft, np.fft.ifft, [u((2, 3), 'any')], tags=('shape', 'fft'))
 
 # ------------------------------------------------------------------ linear algebra
-for sa, sb in [((3,), (3,)), ((2, 3), (3,)), ((3,), (3, 2)), ((2, 3), (3, 2)), ((2, 2, 3), (3,)), ((2, 3), (2, 3, 2))]:
+for sa, sb in [((3,), (3,)), ((2, 3), (3,)), ((3,), (3, 2)), ((2, 3), (3, 2)), ((2, 2, 3), (3,)), ((2, 3), (2, 3, 2)), ((2, 2, 3), (3, 2)), ((3, 2, 3), (3, 2)), ((3, 1, 3), (3,))]:
     E('dot(U%s,U%s)' % (list(sa), list(sb)), algopy.dot, np.dot, [u(sa, 'any'), u(sb, 'any')], tags=('linalg',), atol=8)
 _cm = np.array([[1.0, -2.0], [0.5, 1.5], [2.0, 0.25]])
 E('dot(U[2,3],arr[3,2])', lambda x: algopy.dot(x, _cm), lambda x: np.dot(x, _cm), [u((2, 3), 'any')], tags=('linalg',), atol=8)
